@@ -365,6 +365,7 @@ class Exec(Engine):
                 hint = self.lvalue_type(st, targets[0])
             v = ev.ev(value, hint)
             outs += self.settle(st, ev, line)
+            v = self.track_alias(st, value, v, targets)
             res = [Outcome('next', st, v)]
         for o in res:
             if o.kind != 'next':
@@ -387,6 +388,62 @@ class Exec(Engine):
                 cur = nxt
             outs += [Outcome('next', s2) for s2 in cur]
         return outs
+
+    COLL = ('set', 'list', 'map', 'dset', 'cnt')
+
+    def track_alias(self, st: State, value, v: SV, targets):
+        """`x = self.f[k]` binds x to the *same* collection object: remember the heap lvalue (with the key
+        frozen in a hidden local) so later reads and mutations of x go through it."""
+        if v.t.k not in self.COLL or not (len(targets) == 1 and isinstance(targets[0], ast.Name)):
+            return v
+        if isinstance(value, ast.Name):
+            src = st.get(value.id) if st.has(value.id) else None
+            if src is not None and getattr(src, 'origin', None) is not None:
+                v2 = SV(v.t, v.z)
+                v2.origin = src.origin
+                return v2
+            if src is not None:
+                src.shared = True
+                v2 = SV(v.t, v.z)
+                v2.shared = True
+                return v2
+            return v
+        node = value
+        if isinstance(node, (ast.Subscript, ast.Attribute)):
+            root = node
+            while isinstance(root, (ast.Subscript, ast.Attribute)):
+                root = root.value
+            if not (isinstance(root, ast.Name) and st.has(root.id) and st.get(root.id).t.k == 'obj'):
+                return v
+            frozen = self.freeze_lvalue(st, node)
+            if frozen is None:
+                return v
+            v2 = SV(v.t, v.z)
+            v2.origin = frozen
+            return v2
+        return v
+
+    def freeze_lvalue(self, st: State, node):
+        """Copy of an lvalue expression in which every subscript key is replaced by a hidden local holding its
+        current value."""
+        if isinstance(node, ast.Name):
+            return ast.Name(id=node.id, ctx=ast.Load())
+        if isinstance(node, ast.Attribute):
+            b = self.freeze_lvalue(st, node.value)
+            return None if b is None else ast.copy_location(ast.Attribute(value=b, attr=node.attr, ctx=ast.Load()), node)
+        if isinstance(node, ast.Subscript):
+            b = self.freeze_lvalue(st, node.value)
+            if b is None:
+                return None
+            try:
+                kv = Evaluator(self, st.fork()).ev(node.slice)
+            except (Unsupported, KeyError):
+                return None
+            self._alias_n = getattr(self, '_alias_n', 0) + 1
+            hidden = f'__aliaskey{self._alias_n}'
+            st.frames[0][hidden] = kv
+            return ast.copy_location(ast.Subscript(value=b, slice=ast.Name(id=hidden, ctx=ast.Load()), ctx=ast.Load()), node)
+        return None
 
     def coerce_hint(self, ev, v: SV, hint: T):
         v = self.fix_empty_to(ev, v, hint)
@@ -423,6 +480,17 @@ class Exec(Engine):
         if isinstance(tgt, ast.Name):
             if v is None:
                 raise Unsupported('assigning the result of a None-returning call')
+            prev = st.get(tgt.id) if st.has(tgt.id) else None
+            org = getattr(prev, 'origin', None) if prev is not None else None
+            if getattr(v, 'via_mutation', False) and prev is not None:
+                if getattr(prev, 'shared', False):
+                    raise Unsupported(f'mutation of a local collection `{tgt.id}` that is aliased by another local')
+                if org is not None:
+                    # write through to the heap location this local aliases
+                    v2 = SV(v.t, v.z)
+                    v2.origin = org
+                    st.set(tgt.id, v2)
+                    return self.assign_to(org, SV(v.t, v.z), st, line)
             st.set(tgt.id, v)
             return [Outcome('next', st)]
         if isinstance(tgt, (ast.Tuple, ast.List)):
@@ -791,6 +859,7 @@ class Exec(Engine):
         else:
             raise Unsupported(f'{t}.{m}')
         outs = self.settle(st, ev, n.lineno)
+        new.via_mutation = True
         return outs + [Outcome(o.kind, o.st, res if o.kind == 'next' else o.val) for o in self.assign_to(f.value, new, st, n.lineno)]
 
     # ------------------------------------------------------------------ contract application
